@@ -155,6 +155,94 @@ theorem symXP_lawful (sha1 : Bytes → Bytes) (isPrime : Nat → Bool) (factor :
   decS_encS := by intro k d pad; simp [symXP]
   decC_encC := by intro k d pad; simp [symXP]
 
+/-- The server half of the model is a transliteration of *this* program: `ServerExchange.Run`
+regenerated as a statement list (order of receives, guards and sends incl. the `SendResPQ` loop for a
+repeated req_pq, both DC comparisons, the error of every exit), the literals it sends or encrypts
+field by field, and the definitions of its locals (`g := 3`, the temporary keys from the *client's*
+new_nonce and its own server_nonce, the salt from the same two).  Any edit of these breaks this
+theorem; the server is pinned, not interpreted (the client is: Props/C10 `program_is_model`). -/
+theorem server_program_is :
+    Facts.C09.serverProgram = [
+  ("recv", "readUnencrypted", ["req"], "err"),
+  ("callerr", "crypto.RandInt128", ["s.rand"], "generate server nonce"),
+  ("callerr", "s.rng.PQ", [], "generate pq"),
+  ("label", "SendResPQ", [], ""),
+  ("send", "ResPQ", [], "err"),
+  ("recv", "readUnencrypted", ["dhParams"], "err"),
+  ("switch", "dhParams.Type", ["mt.ReqPqRequestTypeID", "mt.ReqPqMultiRequestTypeID"], ""),
+  ("goto", "SendResPQ", [], ""),
+  ("callerr", "crypto.DecodeRSAPad", ["dhParams.DH.EncryptedData", "s.key.RSA"], "wrapKeyNotFound(err)"),
+  ("callerr", "mt.DecodePQInnerData", ["b"], "err"),
+  ("caseok", "*mt.PQInnerDataDC", [], ""),
+  ("ne", "innerDataDC.DC", ["s.dc"], "wrong DC ID, want %d, got %d"),
+  ("caseok", "*mt.PQInnerDataTempDC", [], ""),
+  ("ne", "innerDataDC.DC", ["s.dc"], "wrong DC ID, want %d, got %d"),
+  ("callerr", "s.rng.DhPrime", [], "generate dh_prime"),
+  ("callerr", "s.rng.GA", ["g", "dhPrime"], "generate g_a"),
+  ("callerr", "data.Encode", ["b"], "err"),
+  ("callerr", "crypto.EncryptExchangeAnswer", ["s.rand", "b.Raw()", "key", "iv"], "err"),
+  ("send", "ServerDHParamsOk", [], "err"),
+  ("recv", "readUnencrypted", ["clientDhParams"], "err"),
+  ("callerr", "crypto.DecryptExchangeAnswer", ["clientDhParams.EncryptedData", "key", "iv"], "decrypt exchange answer"),
+  ("callerr", "clientInnerData.Decode", ["b"], "wrapKeyNotFound(err)"),
+  ("cond", "!crypto.FillBytes(big.NewInt(0).Exp(gB, a, dhPrime), authKey[:])", [], "auth_key is too big"),
+  ("send", "DhGenOk", [], "err"),
+  ("ret", "", [], "")] ∧
+    Facts.C09.serverLiterals = [
+  ("ResPQ", [("Pq", "pq.Bytes()"), ("Nonce", "req.Nonce"), ("ServerNonce", "serverNonce"), ("ServerPublicKeyFingerprints", "[]int64{ s.key.Fingerprint(), }")]),
+  ("PQInnerData", [("Pq", "d.GetPq()"), ("P", "d.GetP()"), ("Q", "d.GetQ()"), ("Nonce", "d.GetNonce()"), ("ServerNonce", "d.GetServerNonce()"), ("NewNonce", "d.GetNewNonce()")]),
+  ("ServerDHInnerData", [("Nonce", "req.Nonce"), ("ServerNonce", "serverNonce"), ("G", "g"), ("GA", "ga.Bytes()"), ("DhPrime", "dhPrime.Bytes()"), ("ServerTime", "int(s.clock.Now().Unix())")]),
+  ("ServerDHParamsOk", [("Nonce", "req.Nonce"), ("ServerNonce", "serverNonce"), ("EncryptedAnswer", "answer")]),
+  ("DhGenOk", [("Nonce", "req.Nonce"), ("ServerNonce", "serverNonce"), ("NewNonceHash1", "crypto.NonceHash1(innerData.NewNonce, authKey)")])] ∧
+    Facts.C09.serverDefs = [
+  ("serverNonce", "crypto.RandInt128(s.rand)"),
+  ("pq", "s.rng.PQ()"),
+  ("dhPrime", "s.rng.DhPrime()"),
+  ("g", "3"),
+  ("a", "s.rng.GA(g, dhPrime)"),
+  ("key", "crypto.TempAESKeys(innerData.NewNonce.BigInt(), serverNonce.BigInt())"),
+  ("answer", "crypto.EncryptExchangeAnswer(s.rand, b.Raw(), key, iv)"),
+  ("decrypted", "crypto.DecryptExchangeAnswer(clientDhParams.EncryptedData, key, iv)"),
+  ("gB", "big.NewInt(0).SetBytes(clientInnerData.GB)"),
+  ("serverSalt", "crypto.ServerSalt(innerData.NewNonce, serverNonce)")] := by
+  refine ⟨rfl, rfl, rfl⟩
+
+/-- `exchange_completes` for the in-tree server: when the exponent `a` is the one
+`TestServerRNG.GA` settles on (`pickA` of the server's draws), nothing has to be assumed about `g_a`,
+and nothing about `g = 3` beyond the prime being large: what remains is the client's own `g_b`. -/
+theorem exchange_completes_intree {Ct} (P : XP Ct) (hP : LawfulXP P) (cc : CCfg) (ct : CTape) (sc : SCfg) (st : STape)
+    (p q : Nat) (draws : List Nat)
+    (ha : pickA st.dhPrime draws = some st.a)
+    (htrust : sc.fp ∈ cc.keys) (hpq : st.pq ≤ 2 ^ 63) (hpq1 : 1 < st.pq) (hcomp : P.isPrime st.pq = false)
+    (hfac : P.factor st.pq = some (p, q)) (hdc : cc.dc = sc.dc)
+    (hdh : checkDH P.isPrime 3 st.dhPrime = true)
+    (hgb : 2 ^ 1984 < 3 ^ ct.b % st.dhPrime ∧ 3 ^ ct.b % st.dhPrime < st.dhPrime - 2 ^ 1984) :
+    (honestRun P cc ct sc st).1 =
+      .done ⟨3 ^ (st.a * ct.b) % st.dhPrime, serverSalt ct.newNonce st.serverNonce, ct.sessionId⟩ ∧
+    (honestRun P cc ct sc st).2.1 =
+      .done ⟨3 ^ (st.a * ct.b) % st.dhPrime, serverSalt ct.newNonce st.serverNonce⟩ := by
+  obtain ⟨a1, a2, a3, a4⟩ := server_ga_in_safe_range st.dhPrime draws st.a ha
+  apply exchange_completes P hP cc ct sc st p q htrust hpq hpq1 hcomp hfac hdc hdh
+  have hmin : safetyMin = 2 ^ 1984 := by unfold safetyMin; rw [key_size_is_2048]
+  -- the prime has 2048 bits: in particular it is larger than 8
+  have hp8 : 8 ≤ st.dhPrime := by
+    have hb := (checkDH_true _ _ _ hdh).1
+    rw [key_size_is_2048] at hb
+    unfold bitLen at hb
+    split at hb
+    · omega
+    · rename_i hne
+      have h1 : 2 ^ st.dhPrime.log2 ≤ st.dhPrime := Nat.log2_self_le hne
+      have h2 : st.dhPrime.log2 = 2047 := by omega
+      rw [h2] at h1
+      have h3 : (2 : Nat) ^ 3 ≤ 2 ^ 2047 := Nat.pow_le_pow_right (by omega) (by omega)
+      omega
+  simp only [checkDHParams, Facts.C09.dhParamChecks, List.all_cons, List.all_nil, dhVal, dhBnd, Bool.and_true,
+    Bool.and_eq_true, inRange, decide_eq_true_eq]
+  have hM : 1 ≤ safetyMin := by rw [hmin]; exact Nat.one_le_two_pow
+  rw [← hmin] at a3 a4 hgb
+  refine ⟨⟨by omega, by omega⟩, ⟨a1, a2⟩, ⟨by omega, by omega⟩, ⟨a3, a4⟩, hgb⟩
+
 /-! ## the byte level (TdModel/Model/C09Bytes.lean): TL encoding of the exchange's constructors,
 interpreted from the layouts regenerated from package mt -/
 
